@@ -32,10 +32,18 @@ type ecsVar struct {
 	src   uint8
 	addr  net.IP // masked; 4 bytes (family 1) or 16 bytes (family 2)
 	first bool   // derived from the first base address of its family
+	// raw, when set, is what the server sees in the option: an address with bits set BELOW the source prefix
+	// length. A wire message can carry that (miekg's unpacker keeps the bytes as sent, only its packer masks);
+	// the client network is still addr/src, and that is what the statement's longest-prefix match is about.
+	raw net.IP
 }
 
 func (e *ecsVar) id() string {
-	return fmt.Sprintf("%d-%s-%d", map[uint16]int{1: 4, 2: 6}[e.fam], e.addr, e.src)
+	s := fmt.Sprintf("%d-%s-%d", map[uint16]int{1: 4, 2: 6}[e.fam], e.addr, e.src)
+	if e.raw != nil {
+		s += "~" + e.raw.String()
+	}
+	return s
 }
 
 type respClass int
@@ -155,6 +163,28 @@ func buildECSVariants(thorough bool) []*ecsVar {
 			add(2, b, l, i == 0)
 		}
 	}
+	// stray bits below the source prefix length (see ecsVar.raw): the host addresses of the nested subnets
+	stray := func(fam uint16, base string, lens []int) {
+		ip := net.ParseIP(base)
+		bits := 128
+		if fam == 1 {
+			ip = ip.To4()
+			bits = 32
+		}
+		for _, l := range lens {
+			m := ip.Mask(net.CIDRMask(l, bits))
+			if m.Equal(ip) {
+				continue
+			}
+			v := &ecsVar{fam: fam, src: uint8(l), addr: m, raw: ip}
+			if !seen[v.id()] {
+				seen[v.id()] = true
+				out = append(out, v)
+			}
+		}
+	}
+	stray(1, "10.1.1.1", []int{8, 16, 24, 25})
+	stray(2, "2001:db8:1:1::1", []int{32, 48, 56, 64})
 	lm := srcLens6Mapped
 	if thorough {
 		lm = allLens(128)[96:]
